@@ -769,6 +769,8 @@ func (p *Parser) parseInfixExp(left ast.Expression) ast.Expression {
 		Left:     left,
 	}
 
+	precedence := precedences[p.curToken.Type]
+
 	p.nextToken() // skip operator
 
 	if p.curTokenIs(token.RBRACES) {
@@ -776,7 +778,7 @@ func (p *Parser) parseInfixExp(left ast.Expression) ast.Expression {
 		return nil
 	}
 
-	exp.Right = p.parseExpression(SUM)
+	exp.Right = p.parseExpression(precedence)
 
 	return exp
 }
